@@ -10,6 +10,7 @@ CONSTANTS
   Lag = 2
   MaxFaults = 1000000
   MaxPolls = 1000000
+  MaxRestarts = 1000000
   FixH13 = FALSE
   FixRevertVerify = FALSE
   FixUnderflow = FALSE
